@@ -190,6 +190,8 @@ def compare_case(header, ops, real, ms, proj_model, proj_spec):
         parts = m.split("\t")
         mo = parts[0]
         so = parts[1] if len(parts) > 1 else "-"
+        if hasattr(proj_spec, "filter"):      # shared suites: keep only this property's verdict
+            so = proj_spec.filter(so)
         if k_idx is None and proj_model(r) != proj_model(mo):
             k_idx = i
         if f_idx is None and so != "-":
